@@ -30,7 +30,7 @@ type parser struct {
 	cur int
 	// a function to which errors are passed
 	errorHandler ddperror.Handler
-	// latest reported error
+	// latest error (reported or suppressed by panicMode)
 	lastError ddperror.Error
 
 	// module being parsed
@@ -410,9 +410,10 @@ func (p *parser) exitScope() {
 }
 
 func (p *parser) errVal(err ddperror.Error) {
+	// also remember suppressed errors, the Bad* nodes take their range from lastError
+	p.lastError = err
 	if !p.panicMode {
 		p.panicMode = true
-		p.lastError = err
 		p.errorHandler(p.lastError)
 	}
 }
